@@ -53,6 +53,7 @@ class Fn(object):
     self.types = set()       # names bound to type objects
     self.n = 0
     self.obj = None          # name of the RaisedException under construction (kind exc)
+    self.classes = set()     # locals bound to a class made by type(name, (Exception,), {})
     self.mut = None          # the mutated list parameter (kind shift)
 
   def fresh(self, base='t'):
@@ -125,7 +126,7 @@ class Fn(object):
             and isinstance(e.args[1].elts[0], ast.Name) and e.args[1].elts[0].id == 'Exception'
             and isinstance(e.args[2], ast.Dict) and not e.args[2].keys):
           return self.with_val(e.args[0], lambda a: '(p_new_exc_class %s)' % a)
-        if f.id not in self.types and f.id not in TYPE_NAMES and f.id not in CLASS_NAMES and len(e.args) <= 1 and f.id == 'stand_in':
+        if f.id in self.classes and len(e.args) <= 1:
           if not e.args:
             return '(p_instantiate %s [])' % self.var(f.id)
           return self.with_val(e.args[0], lambda a: '(p_instantiate %s [%s])' % (self.var(f.id), a))
@@ -299,6 +300,8 @@ class Fn(object):
       return '(%s%s)' % (lets, self.T(rest))
     if isinstance(tgt, ast.Name):
       name = self.var(tgt.id)
+      if (isinstance(value, ast.Call) and isinstance(value.func, ast.Name) and value.func.id == 'type' and len(value.args) == 3):
+        self.classes.add(tgt.id)
     elif (isinstance(tgt, ast.Attribute) and isinstance(tgt.value, ast.Name) and self.obj and tgt.value.id == self.obj
           and tgt.attr in EXC_FIELDS):
       name = 'x_%s_%s' % (self.obj, tgt.attr)
@@ -384,4 +387,100 @@ def translate_all(grist_dir):
         trees[fname] = ast.parse(f.read())
     fd = find(trees[fname], cls, name)
     parts.append('(* %s: %s%s *)\n%s' % (fname, cls + '.' if cls else '', name, translate_function(fd, kind, gname, params)))
-  return HEADER % 'main.py, column.py, objtypes.py' + '\n'.join(parts) + '\nEnd Gen.\n'
+  return HEADER % 'main.py, column.py, objtypes.py' + '\n'.join(parts) + '\n' + dispatch_text()
+
+
+# usertypes class -> ctype pattern of Model/Values.v
+CTYPES = [('Text', 'TText'), ('Blob', 'TBlob'), ('Any', 'TAny'), ('Bool', 'TBool'), ('Int', 'TInt'), ('Numeric', 'TNumeric'),
+          ('Date', 'TDate'), ('DateTime', 'TDateTime _'), ('Choice', 'TChoice'), ('ChoiceList', 'TChoiceList'),
+          ('PositionNumber', 'TPositionNumber'), ('ManualSortPos', 'TManualSortPos'), ('Id', 'TId'), ('Reference', 'TRef _'),
+          ('ReferenceList', 'TRefList _'), ('Attachments', 'TAttachments')]
+SET_KINDS = {'BaseColumn.set': 'KIdentity', 'BoolColumn.set': 'KBool', 'NumericColumn.set': 'KNumeric',
+             'PositionColumn.set': 'KNumeric',          # pinned: PositionColumn.set passes the value on to NumericColumn.set
+             'ChoiceListColumn.set': 'KChoiceList'}
+CLEAN_KINDS = {'ReferenceColumn._clean_up_value': 'KRef', 'ReferenceListColumn._clean_up_value': 'KRefList'}
+
+
+def dispatch_text():
+  """Which translated function stores a value in a column of each type: read off the running classes (usertypes.<T>.ColType
+  and the method resolution order of the column classes)."""
+  import column        # noqa: F401  (sets usertypes.<T>.ColType)
+  import usertypes
+  lines = []
+  for name, pat in CTYPES:
+    col = getattr(usertypes, name).ColType
+    q = col.set.__qualname__
+    if q == 'BaseReferenceColumn.set':
+      kind = CLEAN_KINDS.get(col._clean_up_value.__qualname__)
+    else:
+      kind = SET_KINDS.get(q)
+    if kind is None:
+      raise Untranslatable('column class of %s stores values through %s' % (name, q))
+    lines.append('  | %s => %s' % (pat, kind))
+  return ('(* usertypes.<T>.ColType.set, resolved on the running classes *)\nDefinition gen_set_kind (T : ctype) : set_kind :=\n'
+          '  match T with\n' + '\n'.join(lines) + '\n  end.\n\n'
+          'Definition gen_col_set (T : ctype) (v : value) : result value :=\n  match gen_set_kind T with\n'
+          '  | KIdentity => Ok v\n  | KBool => gen_BoolColumn_set v\n  | KNumeric => gen_NumericColumn_set v\n'
+          '  | KChoiceList => gen_ChoiceListColumn_set v\n  | KRef => gen_ReferenceColumn_clean_up_value v\n'
+          '  | KRefList => gen_ReferenceListColumn_clean_up_value v\n  end.\n' + COMPOSED)
+
+
+# fixed text: the translated functions put together the way load_table / _recompute_step / _changes_to_actions call them
+COMPOSED = '''
+(* marshal.loads of a bytes object, by the model's unmarshal *)
+Definition loads_of (unmarshal : list Z -> value) (x : value) : result value :=
+  match x with PBytes _ b => Ok (unmarshal b) | _ => Raise E_Type end.
+
+End Gen.
+
+Section Composed.
+Variable orc : oracles.
+
+(* the reload of a cell with the translated _decode_db_value and the translated set of the column's class; the .error
+   description of a decoded error cell is that of the translated decode_args (Proofs/Reload_bridge.v: decoded_err_by_gen) *)
+Definition code_reload (marshal : value -> list Z) (unmarshal : list Z -> value) (T : ctype) (fuel : nat) (c : cell) : result cell :=
+  let x := unmarshal (marshal (to_db marshal (encode_f orc fuel (fst c)))) in
+  bind (gen_decode_db_value (decode_f orc fuel) (loads_of unmarshal) x) (fun d =>
+  bind (gen_col_set orc T d) (fun w => Ok (w, snd (from_db orc unmarshal fuel x)))).
+
+Definition code_recompute_cell (previous new : value) : result (option (value * value)) :=
+  bind (gen_strict_equal orc new previous) (fun same => Ok (if same then None else Some (previous, new))).
+
+Definition code_flush_cell (fuel : nat) (chg : option (value * value)) : result (option value) :=
+  match chg with
+  | Some (before, after) =>
+      bind (gen_equal_encoding orc (encode_f orc fuel) before after) (fun same => Ok (if same then None else Some after))
+  | None => Ok None
+  end.
+
+End Composed.
+'''
+
+
+# glue that is not translated: pinned by the hash of its AST (comments and layout do not matter)
+PINNED = [('main.py', None, 'table_data_from_db'), ('column.py', 'BaseColumn', 'set'), ('column.py', 'BaseReferenceColumn', 'set'),
+          ('column.py', 'PositionColumn', 'set'), ('objtypes.py', 'RaisedException', '__init__'),
+          ('objtypes.py', None, 'is_int_short'), ('actions.py', None, 'decode_bulk_values')]
+
+
+def pin_hashes(grist_dir):
+  import hashlib
+  out = {}
+  for fname, cls, name in PINNED:
+    with open(os.path.join(grist_dir, fname)) as f:
+      fd = find(ast.parse(f.read()), cls, name)
+    out['%s:%s%s' % (fname, cls + '.' if cls else '', name)] = hashlib.sha1(ast.dump(fd).encode()).hexdigest()[:16]
+  # the change-detection statements inside two long functions
+  with open(os.path.join(grist_dir, 'engine.py')) as f:
+    fd = find(ast.parse(f.read()), 'Engine', '_recompute_step')
+  blocks = [n for n in ast.walk(fd) if isinstance(n, ast.If) and isinstance(n.test, ast.Name) and n.test.id == 'save_value']
+  if len(blocks) != 1:
+    raise Untranslatable('Engine._recompute_step: `if save_value:` block not found once')
+  out['engine.py:_recompute_step:if save_value'] = hashlib.sha1(ast.dump(blocks[0]).encode()).hexdigest()[:16]
+  with open(os.path.join(grist_dir, 'action_summary.py')) as f:
+    fd = find(ast.parse(f.read()), 'ActionSummary', '_changes_to_actions')
+  st = [n for n in fd.body if isinstance(n, ast.Assign) and isinstance(n.targets[0], ast.Name) and n.targets[0].id == 'full_row_ids']
+  if len(st) != 1:
+    raise Untranslatable('ActionSummary._changes_to_actions: full_row_ids statement not found once')
+  out['action_summary.py:_changes_to_actions:full_row_ids'] = hashlib.sha1(ast.dump(st[0]).encode()).hexdigest()[:16]
+  return out
